@@ -60,26 +60,30 @@ def mostSpecific (cfg : Config V) (rx : Rx) (name : Bytes) (ty : Nat) : Option N
   | some i => some i
   | none => firstRegex cfg rx name ty
 
-/-- C11: `$n` / `${n}` (name = longest run of `[A-Za-z0-9_]`) with purely numeric n ≥ 1 ↦ n-th capture
-    (empty when out of range); any other reference name ↦ empty; `$$` ↦ `$`; a `$` that starts no
-    reference and every other byte are copied. This is Go's documented `regexp.Expand` syntax with
-    captures numbered from 1. -/
-def expandSpec (caps : List Bytes) : Nat → Bytes → Bytes
-  | 0, t => t
-  | _, [] => []
+/-- C11, "as documented": the template syntax is the one Go documents for `regexp.Expand` — a reference is `$name` or
+    `${name}` where `name` is the longest sequence of letters, digits and underscore (letters and digits in Go's sense:
+    `rxExtractU` / `nameRune`), `$$` is a literal `$`. A purely numeric name `n ≥ 1` (decimal, no leading zero) is
+    replaced by the n-th capture (empty when out of range); any other name refers to a named group, which the captures of
+    a glob rule (and the unnamed groups of its regex translation) do not have: empty. A `$` that starts no reference and
+    every other byte are copied. `none` = a name contains a rune outside the modelled Unicode fragment: nothing is
+    specified there. Captures are numbered from 1. -/
+def expandSpec (caps : List Bytes) : Nat → Bytes → Option Bytes
+  | 0, t => some t
+  | _, [] => some []
   | fuel + 1, b :: rest =>
     if b == cDollar then
       match rest with
       | c :: rest' =>
-        if c == cDollar then cDollar :: expandSpec caps fuel rest'
-        else match rxExtract rest with
-          | none => cDollar :: expandSpec caps fuel rest
-          | some (name, r) =>
+        if c == cDollar then (expandSpec caps fuel rest').map (cDollar :: ·)
+        else match rxExtractU rest with
+          | none => none
+          | some none => (expandSpec caps fuel rest).map (cDollar :: ·)
+          | some (some (name, r)) =>
             let sub : Bytes := match rxNum name with
               | some n => if n ≥ 1 then caps.getD (n - 1) [] else []
               | none => []
-            sub ++ expandSpec caps fuel r
-      | [] => [cDollar]
-    else b :: expandSpec caps fuel rest
+            (expandSpec caps fuel r).map (sub ++ ·)
+      | [] => some [cDollar]
+    else (expandSpec caps fuel rest).map (b :: ·)
 
 end SE
